@@ -344,6 +344,12 @@ func c20Wrappers(c *Ctx) {
 			if _, direct := guard.Strip(ret.Results[0]).(*ssa.Call); !direct {
 				continue
 			}
+			// decode of GetRandomBytes(4): a fresh 4-byte buffer filled whole (checked above)
+			if gc, _ := guard.CallOf(dc.Call.Args[len(dc.Call.Args)-1]); gc != nil && strings.HasSuffix(guard.CalleeName(&gc.Call), "random.GetRandomBytes") {
+				if k, isK := guard.ConstInt(gc.Call.Args[0]); isK && k == 4 {
+					good = true
+				}
+			}
 			buf := regionOf(bounds.NewCtx(f), dc.Call.Args[len(dc.Call.Args)-1])
 			for _, fs := range randomFillsOf(bounds.NewCtx(f), f) {
 				if guard.Strip(fs.reg.base) == guard.Strip(buf.base) && fs.reg.hi.String() == "4" && fs.reg.lo.String() == "0" {
@@ -398,6 +404,54 @@ func c20Stream(c *Ctx) {
 			for _, ret := range guard.SuccessReturns(f) {
 				if !(call.Block() == ret.Block() || call.Block().Dominates(ret.Block())) {
 					okSalt, okPrefix = false, false
+				}
+			}
+		}
+		if !(okSalt && okPrefix) {
+			// provenance form: the salt handed to the key derivation and the nonce prefix
+			// handed to the segment writer are each a buffer filled completely by the
+			// CSPRNG on every call (GetRandomBytes result, or a slice passed whole to
+			// MustRand / rand.Read before any success return)
+			freshRandom := func(v ssa.Value) bool {
+				if cc, _ := guard.CallOf(v); cc != nil && strings.HasSuffix(guard.CalleeName(&cc.Call), "random.GetRandomBytes") {
+					return true
+				}
+				ok := false
+				allInstrs(f, func(ins ssa.Instruction) {
+					call, isC := ins.(*ssa.Call)
+					if !isC || len(call.Call.Args) == 0 {
+						return
+					}
+					nme := guard.CalleeName(&call.Call)
+					if !(strings.HasSuffix(nme, "internal/random.MustRand") || nme == "crypto/rand.Read") || guard.Strip(call.Call.Args[0]) != guard.Strip(v) {
+						return
+					}
+					dom := true
+					for _, ret := range guard.SuccessReturns(f) {
+						if !(call.Block() == ret.Block() || call.Block().Dominates(ret.Block())) {
+							dom = false
+						}
+					}
+					if dom {
+						ok = true
+					}
+				})
+				return ok
+			}
+			var saltV, prefixV ssa.Value
+			allInstrs(f, func(ins ssa.Instruction) {
+				if call, isC := ins.(*ssa.Call); isC && strings.HasSuffix(guard.CalleeName(&call.Call), ").deriveKey") && len(call.Call.Args) >= 2 {
+					saltV = call.Call.Args[1]
+				}
+				if _, fld, val, isS := guard.StoreField(ins); isS && fld == "NoncePrefix" {
+					prefixV = val
+				}
+			})
+			if saltV != nil && prefixV != nil {
+				okSalt, okPrefix = freshRandom(saltV), freshRandom(prefixV)
+				// and they are different buffers
+				if guard.Strip(saltV) == guard.Strip(prefixV) {
+					okPrefix = false
 				}
 			}
 		}
